@@ -50,7 +50,13 @@ package absnfs
 // the type GETATTR reports is the type Lstat reports (never Stat: a symbolic link is a link)
 //@ callassert absfs.FS.Lstat : [lstat-of-node-path] {C04} arg1 == node.path
 //@ also AbsfsNFS.SetAttr
-//@ ensures [type-size-fileid-kept] {C04} isnil(result) && old(node.attrs) != nil ==> node.attrs != nil && node.attrs.Mode & os.ModeType == old(node.attrs.Mode) & os.ModeType && node.attrs.FileId == old(node.attrs.FileId) && node.attrs.Size == old(node.attrs.Size)
+// "what they were": what the node's record said when SetAttr took the node's write lock to install the new record
+// (atlock), not what SetAttr read in an earlier critical section - between its critical sections a WRITE may change
+// the size (the reacquire rule forgets the node's record at every later acquisition of node.mu). C29: a
+// read-modify-write split across two lock regions loses the concurrent update and no longer satisfies this.
+// (rely: whatever other threads did meanwhile kept the cache's identity invariant - every cache mutator is proved to)
+//@ reacquire node.mu : node.attrs.Mode, node.attrs.Size, node.attrs.FileId, node.attrs.Uid, node.attrs.Gid, node.attrs.mtime, node.attrs.atime, node.attrs.validUntil, node.attrs ; old(acIds(s.attrCache)) ==> acIds(s.attrCache)
+//@ ensures [type-size-fileid-kept] {C04, C29} isnil(result) && atlock(node.mu, node.attrs) != nil ==> node.attrs != nil && node.attrs.Mode & os.ModeType == atlock(node.mu, node.attrs.Mode) & os.ModeType && node.attrs.FileId == atlock(node.mu, node.attrs.FileId) && node.attrs.Size == atlock(node.mu, node.attrs.Size)
 //@ ensures [error-leaves-record] {C04} !isnil(result) ==> node == nil || node.attrs == old(node.attrs)
 //@ ensures [ids-kept] {C04} old(acIds(s.attrCache)) && old(notCached(s.attrCache, attrs)) ==> acIds(s.attrCache)
 
